@@ -71,6 +71,14 @@ CLAIMS = {
          "Injectivity is a runtime property and is NOT decided; decided are its structural necessary conditions: a clause for every instruction kind observing every exported field (+ result type where not operand-determined), typed constants, package-qualified function references, typed free variables, index-preserving sorts (one known finding: select-case sorting), swap/commutativity/hoisting guarded exactly as their soundness arguments require, no source-carrying function skipped. A change that drops an attribute or widens a guard makes every pair of functions differing only there collide — for all such pairs, which no sampled test can show.",
          "Attribute observation ≠ injective rendering; the semantic soundness of each normalisation beyond its gating is not decided.",
          "DESIGN.md §4 C03"),
+ "C02": ("forbidden-read census (names, positions, comments, String()) over everything reachable from the canonicaliser, provenance of canonical register/block names, must-pass-through for own-nest exclusion before a function name is read, value-independence of the abstraction branch, ordered-write check for commutative operands, coupled swap state",
+         "Decides the necessary conditions of cosmetic invariance for every function and refactoring at once (non-interference by read-set: code that never reads X cannot depend on X): no cosmetic attribute is read on the canonicalisation path; names come from counters; a referenced function's own name is read only outside the subject's nest (the rule that found the recursive-function rename defect repaired in /repo); abstracted literals render from their type only; commutative operands are written in string order; operator rewrite and branch exchange are recorded together; results are sorted by name.",
+         "That go/ssa produces the same shape for cosmetically different sources is trusted; behavioural equality of the normalised forms is not decided.",
+         "DESIGN.md §4 C02"),
+ "C04": ("read-set dependency of the Preserved verdict on successor edges, sentinel exclusion before the fingerprint-equality short-circuit, two-sided scalar-attribute coverage of the zipper's comparator derived from the go/ssa struct definitions, must-pass-through for match recording and for the Preserved / 'preserved' stores",
+         "Decides the structural necessary conditions of 'never calls a behaviour change preserved': the verdict depends on successor edges (found the exchanged-branches defect), the size-guard marker cannot short-circuit to preserved (found the OVERSIZED defect), every scalar attribute of every instruction kind — incl. invoke mode and method of go/defer — is compared on both sides (found the defer/go defect), matches are recorded only after a full equivalence test, Preserved needs both unmatched lists empty, 'preserved' only under fingerprint equality or that flag. Completeness of the matching itself is not decided.",
+         "Inherits C03's structural guarantees for operand rendering; completeness of structural matching is out of reach.",
+         "DESIGN.md §4 C04"),
 }
 
 PENDING_REASON = "static check for this property is not armed yet in this revision of the machinery (see DESIGN.md §4 for the planned structural clauses); not claimed until its rules run silent on the tree and fire on their mutants"
